@@ -31,7 +31,7 @@ DRIVER = E.DRIVER
 REQUIRED_THEOREMS = ["in_step_foreign_is_silent", "out_step_foreign_is_silent", "sig_step_foreign_is_silent",
                      "foreign_transaction_invisible", "mux_passes_selected", "at_most_one_answers",
                      "sig_cycle_refines_event", "sig_cycle_refines_run", "in_cycle_refines_event", "in_cycle_refines_run",
-                     "out_cycle_refines_event", "out_cycle_refines_run"]
+                     "out_cycle_refines_event", "out_cycle_refines_run", "out_cycle_refines_legal"]
 RULE = ("dev: adaptive legal host schedules (IN/OUT/PING on 5 endpoints, unowned tokens, other devices, lost "
         "handshakes, retries, wrong PIDs, bad CRCs, control transfers incl. CLEAR_FEATURE(ENDPOINT_HALT)) on a "
         "random endpoint layout, each re-run with the foreign traffic deleted for 3 target endpoints; gate/mux: "
